@@ -361,8 +361,78 @@ Proof.
     unfold dead in *. destruct (c_defunct (getc s c)); simpl in *; auto.
   - gn. apply H2. revert H. inapp. tauto.
   - rewrite (getc_app s) by reflexivity.
-    assert (Hc : In c (queue s ++ (n :: l) ++ map fst (assigning s) ++ finishing s)) by (revert H; inapp; tauto).
+    match type of H2 with forall _, In _ ?L -> _ => assert (Hc : In c L) by (revert H; inapp; tauto) end.
     destruct (H2 _ Hc). split; [lia|assumption].
-  - gn. assert (Hc : In c (queue s ++ connecting s ++ map fst ((n, n0) :: l) ++ finishing s)) by (revert H; inapp; tauto).
-    apply H2. assumption.
+  - destruct (H2 _ H) as [? Hf]. split; [assumption|].
+    destruct (getc_close_all s (set_conns (set_trash (set_phase s 3) []) (close_all (trash s) (conns s))) (trash s) c eq_refl) as [(_&_&R&_&_&_&_&_&_&Rc) _].
+    rewrite R. destruct Hf; auto.
 Qed.
+
+Lemma dead_closed s c : InvA s -> dead (getc s c) = true -> c_closed (getc s c) = true.
+Proof.
+  intros [_ HA] H. destruct (HA c) as (_&_&_&_&_&_&Hd). unfold dead in H.
+  destruct (c_defunct (getc s c)); simpl in *; auto.
+Qed.
+
+Lemma getc_updc_other s c f x : x <> c -> getc (updc s c f) x = getc s x.
+Proof. intros H. rewrite getc_updc. apply Nat.eqb_neq in H. rewrite H. reflexivity. Qed.
+Lemma getc_updc_same s c f : (c < length (conns s))%nat -> getc (updc s c f) c = f (getc s c).
+Proof. intros H. rewrite getc_updc, Nat.eqb_refl. apply valid_lt in H. rewrite H. reflexivity. Qed.
+
+Ltac gs := rewrite ?getc_set_cur, ?getc_set_trash, ?getc_set_replacing, ?getc_set_shut, ?getc_set_soe, ?getc_set_queue, ?getc_set_connecting, ?getc_set_assigning, ?getc_set_finishing, ?getc_set_phase, ?getc_submit.
+Ltac gno := repeat (progress (gs; try rewrite getc_updc_other by assumption)).
+
+Ltac h4 c := match goal with H4 : forall c, (c < _)%nat -> _ |- _ => destruct (H4 c) as [?|[?|[?|[?|?]]]]; [try lia; assumption | ..] end.
+
+Ltac rf4 s :=
+  match goal with Hf : finishing _ = ?n :: _, Hlt : (?c < length _)%nat, H2 : forall _, In _ _ -> _ /\ _ |- _ =>
+    destruct (Nat.eq_dec c n) as [->|N];
+    [ assert (Hn : (n < length (conns s))%nat) by assumption;
+      left; repeat (rewrite getc_updc_same by (simpl; rewrite ?length_upd; unfold updc; simpl; rewrite ?length_upd; exact Hn)); simpl;
+      first [reflexivity | gs; destruct (H2 n) as [_ [Ht|Hc]]; [inapp; tauto|congruence|assumption]]
+    | gno; h4 c; simpl in *; intuition congruence ] end.
+
+Lemma B4_step s o : InvA s -> InvB s -> B4 (fst (step s o)).
+Proof.
+  startB. stepcases o; intros; try discriminate; eauto.
+  all: try (match goal with H : (?c < _)%nat |- _ =>
+       destruct (H4 c) as [?|[?|[?|[?|?]]]]; [try lia; assumption| mono_flags ..] end; fail).
+  all: try solve [match goal with H : (?c < _)%nat |- _ =>
+       destruct (H4 c) as [?|[?|[?|[?|?]]]]; [try lia; assumption| ..] end;
+       bool_hyps; nat_hyps; gn; ifs; simpl; bool_hyps; nat_hyps; subst; inapp;
+       try match goal with Hd : dead (getc ?s0 ?x) = true, HA0 : InvA ?s0 |- _ => apply (dead_closed s0 x HA0) in Hd end;
+       try match goal with Ha : Some _ = Some _ |- _ => injection Ha as -> end;
+       try rewrite In_del; try rewrite In_ins;
+       intuition (try congruence; try lia)].
+  - (* ReturnTrash, closing c *)
+    bool_hyps. destruct (Nat.eq_dec c0 c) as [->|N].
+    + left. rewrite getc_updc_same by (simpl; rewrite ?length_upd; unfold updc; simpl; rewrite ?length_upd; assumption). reflexivity.
+    + gno. rewrite In_del. h4 c0; tauto.
+  - (* ReplaceConnect ok *)
+    rewrite (getc_app s) by reflexivity. inapp.
+    destruct (Nat.eq_dec c (length (conns s))) as [->|N]; [tauto|].
+    h4 c; tauto.
+  - (* ReplaceAssign, pool shut down: fresh connection closed *)
+    destruct (Nat.eq_dec c n0) as [->|N].
+    + left. rewrite getc_updc_same by assumption. reflexivity.
+    + gno. h4 c; try tauto.
+      simpl in *. intuition congruence.
+  - (* ReplaceAssign, installed *)
+    gn. inapp. h4 c; try tauto.
+    + right. right. right. right. right. left.
+      symmetry. apply (H3 n c); [inapp; tauto|assumption].
+    + simpl in *. intuition congruence.
+  - rf4 s.
+  - rf4 s.
+  - rf4 s.
+  - rf4 s.
+  - rf4 s.
+  - (* ShutdownCloseMain *)
+    destruct (Nat.eq_dec c n) as [->|N].
+    + left. rewrite getc_updc_same by assumption. reflexivity.
+    + gno. h4 c; intuition congruence.
+  - (* ShutdownTrash *)
+    destruct (getc_close_all s (set_conns (set_trash (set_phase s 3) []) (close_all (trash s) (conns s))) (trash s) c eq_refl) as [(_&_&_&_&_&_&_&_&_&Rc) Rt].
+    h4 c; auto.
+Qed.
+
